@@ -66,6 +66,41 @@ func macroGapFamilies(tier string, r *rng, emit func(string)) {
 			emit("W;" + hexJoin(raws) + ";" + hexJoin(hands))
 		}
 	}
+	// a macro REDEFINED IN A LATER INPUT of the session, with 0, 1 and 2 parameters, used before and after (seeded change C13-6: an
+	// expansion cache for parameterless macros keyed by name survived the redefinition): "the definition is not altered by its
+	// uses" x "across several inputs of a session"; with the hand-substituted session
+	for _, rd := range []struct {
+		ps         string
+		t1, t2     string // templates over {x} {y}
+		args       []string
+	}{
+		{"", "4 + 6", "9 * 2", nil},
+		{"", "say(5)", "say(9) + 1", nil},
+		{"", "[1, 2]", `{"k": 3}`, nil},
+		{"x", "{x} + 1", "{x} * 10", []string{"3"}},
+		{"x", "{x}", "-{x}", []string{"tick()"}},
+		{"x, y", "{x} - {y}", "{y} - {x}", []string{"7", "2"}},
+	} {
+		var unq, par []string
+		if rd.ps != "" {
+			for i, p := range strings.Split(rd.ps, ", ") {
+				unq = append(unq, "unquote("+p+")")
+				par = append(par, "("+rd.args[i]+")")
+			}
+		}
+		def1 := "m = macro(" + rd.ps + ") { quote(" + fill2(rd.t1, append(unq, "", "")) + ") }"
+		def2 := "m = macro(" + rd.ps + ") { quote(" + fill2(rd.t2, append(unq, "", "")) + ") }"
+		call := "m(" + strings.Join(rd.args, ", ") + ")"
+		h1 := "(" + fill2(rd.t1, append(par, "", "")) + ")"
+		h2 := "(" + fill2(rd.t2, append(par, "", "")) + ")"
+		raws := []string{macroPrelude2 + "\n" + def1 + "\n" + call, call + "\nf = func() { " + call + " }\nf()", def2, call, "println(" + call + ", " + call + ")\nf = func() { " + call + " }\nf()"}
+		hands := []string{macroPrelude2 + "\n" + h1, h1 + "\nf = func() { " + h1 + " }\nf()", "", h2, "println(" + h2 + ", " + h2 + ")\nf = func() { " + h2 + " }\nf()"}
+		emit("W;" + hexJoin(raws) + ";" + hexJoin(hands))
+		// the redefinition and a call in ONE later input (hoisted: the call uses the new definition)
+		raws = []string{macroPrelude2 + "\n" + def1 + "\n" + call, def2 + "\n" + call, call}
+		hands = []string{macroPrelude2 + "\n" + h1, h2, h2}
+		emit("W;" + hexJoin(raws) + ";" + hexJoin(hands))
+	}
 	// a macro redefined inside ONE input (definitions are hoisted: both calls use the last definition; recorded
 	// for C15 part 3 as macro-redefined-after-use-in-one-input), and used before its definition
 	for _, sess := range [][]string{
